@@ -4,13 +4,15 @@ from hypothesis import strategies as st
 from vlib.harness import Violation
 
 PID = "C22"
-RULE = ("REPL sessions of 4..14 cells (thorough ..30): type declarations (storage with 0, 1 or 2 big maps / parameter), BEGIN "
+RULE = ("REPL sessions of 4..14 cells (thorough ..30): type declarations (storage with 0, 1 or 2 big maps / sapling states / "
+        "parameter), BEGIN "
         "with empty or non-empty big_map literals, contract bodies split into 1..3 cells (big_map UPDATE on the storage's maps, "
         "EMPTY_BIG_MAP + UPDATE of fresh maps), COMMIT, free cells (PUSH / DUP / SWAP / DROP / EMPTY_BIG_MAP / UPDATE / GET / "
         "PATCH AMOUNT|NOW|BALANCE / DROP_ALL / DUMP), and FAILING cells built from a prefix of the atoms of the next successful "
         "cell (so the cell mutates the stack, the big maps and the context counters exactly like real code) followed by a "
         "failing instruction inserted at every position: FAILWITH, type error, stack underflow, unknown primitive, parse error, "
-        "bad declaration, BEGIN with an ill-typed literal, COMMIT on a wrong stack. Oracle (metamorphic): session A runs all "
+        "bad declaration, BEGIN with an ill-typed literal, COMMIT on a wrong stack, and failures below the top level of the cell "
+        "(inside DIP / DIP n / nested DIP / IF / ITER / MAP / LOOP bodies and executed lambdas); storages with sapling_state. Oracle (metamorphic): session A runs all "
         "cells, session B only the cells that did not fail in A, on fresh interpreters; after every surviving cell the stack "
         "(types, values, big_map pointer/pending items/pending removals), the context (environment, tmp/alloc big_map counters, "
         "origination index, big_map registry, declared sections) and the cell's stdout, error status and COMMIT results "
@@ -21,11 +23,15 @@ S_TYPES = {
     "S2": "pair (big_map nat nat) (big_map nat nat)",
     "S1": "big_map nat nat",
     "S0": "nat",
+    "SS": "pair (sapling_state 8) (sapling_state 8)",
+    "SB": "pair (big_map nat nat) (sapling_state 8)",
 }
 BEGIN_LIT = {
     "S2": ["(Pair {} {})", "(Pair { Elt 1 2 } {})", "(Pair {} { Elt 5 6 ; Elt 7 8 })"],
     "S1": ["{}", "{ Elt 1 2 }"],
     "S0": ["5", "0"],
+    "SS": ["(Pair {} {})"],
+    "SB": ["(Pair {} {})", "(Pair { Elt 1 2 } {})"],
 }
 BODIES = {
     "S2": [
@@ -47,6 +53,16 @@ BODIES = {
         ["CDR", "PUSH nat 1", "ADD", "NIL operation", "PAIR"],
         ["DROP", "PUSH nat 42", "NIL operation", "PAIR"],
     ],
+    "SS": [
+        ["CDR", "NIL operation", "PAIR"],
+        ["DROP", "SAPLING_EMPTY_STATE 8", "SAPLING_EMPTY_STATE 8", "PAIR", "NIL operation", "PAIR"],
+        ["CDR", "UNPAIR", "DROP", "SAPLING_EMPTY_STATE 8", "PAIR", "NIL operation", "PAIR"],
+    ],
+    "SB": [
+        ["CDR", "UNPAIR", "PUSH (option nat) (Some 7)", "PUSH nat 1", "UPDATE", "PAIR", "NIL operation", "PAIR"],
+        ["DROP", "SAPLING_EMPTY_STATE 8", "EMPTY_BIG_MAP nat nat", "PUSH (option nat) (Some 1)", "PUSH nat 0", "UPDATE", "PAIR",
+         "NIL operation", "PAIR"],
+    ],
 }
 FREE = [
     ["PUSH nat 3"], ["PUSH nat 1", "PUSH nat 2", "ADD"], ["DUP"], ["SWAP"], ["DROP"], ["EMPTY_BIG_MAP nat nat"],
@@ -54,7 +70,8 @@ FREE = [
     ["PUSH (option nat) (Some 3)", "PUSH nat 4", "UPDATE"], ["PUSH (option nat) None", "PUSH nat 4", "UPDATE"],
     ["DUP", "PUSH nat 4", "GET"], ["DUP", "PUSH nat 6", "MEM"],
     ["PATCH AMOUNT 5"], ["PATCH NOW 100"], ["PATCH BALANCE 77"], ["PATCH AMOUNT"], ["DROP_ALL"], ["DUMP"],
-    ["PUSH string \"a\""], ["UNIT"], ["PUSH nat 1", "SOME"],
+    ["PUSH string \"a\""], ["UNIT"], ["PUSH nat 1", "SOME"], ["SAPLING_EMPTY_STATE 8"], ["SAPLING_EMPTY_STATE 8"],
+    ["PUSH nat 1", "PUSH nat 2", "DIP { PUSH nat 3 }"], ["PUSH (list nat) { 1 ; 2 }", "ITER { DROP }"],
 ]
 MUTATING = ("UPDATE", "EMPTY_BIG_MAP", "PATCH", "BEGIN", "storage", "parameter", "DROP", "PUSH", "PAIR", "UNPAIR", "CDR", "DUP", "SWAP")
 BAD = {
@@ -69,6 +86,17 @@ BAD = {
     "commit-wrong-stack": ["PUSH nat 1", "COMMIT"],
     "begin-ill-typed": ["BEGIN Unit \"zzz\""],
     "bad-patch": ["PATCH NOW \"not a date\""],
+    # failures below the top level of the cell: inside DIP / DIP n / IF / ITER / MAP / LOOP bodies and executed lambdas
+    "in-dip": ["PUSH nat 1", "DIP { UNIT ; FAILWITH }"],
+    "in-dip-n": ["PUSH nat 1", "PUSH nat 2", "DIP 2 { PUSH int 1 ; PUSH string \"a\" ; ADD }"],
+    "in-dip-underflow": ["PUSH nat 1", "DIP { DIG 7 }"],
+    "in-nested-dip": ["PUSH nat 1", "PUSH nat 2", "DIP { DIP { PUSH nat 5 ; FAILWITH } }"],
+    "in-if": ["PUSH bool True", "IF { UNIT ; FAILWITH } { }"],
+    "in-iter": ["PUSH (list nat) { 1 ; 2 }", "ITER { DROP ; EMPTY_BIG_MAP nat nat ; FAILWITH }"],
+    "in-map": ["PUSH (list nat) { 1 }", "MAP { FAILWITH }"],
+    "in-loop": ["PUSH bool True", "LOOP { PUSH nat 1 ; DROP 2 }"],
+    "in-lambda": ["LAMBDA unit unit { DIP { UNIT } ; FAILWITH }", "UNIT", "EXEC"],
+    "dig-whole-stack": ["PUSH nat 1", "DIG 1"],
 }
 
 
@@ -95,7 +123,8 @@ def obs_value(item):
 
 
 def obs_stack(interp):
-    return [[type(i).as_micheline_expr(), obs_value(i)] for i in interp.stack.items]
+    return [["protected", getattr(interp.stack, "protected", None)]] + \
+        [[type(i).as_micheline_expr(), obs_value(i)] for i in interp.stack.items]
 
 
 CTX_FIELDS = ["amount", "balance", "now", "level", "sender", "source", "chain_id", "address", "tmp_big_map_index",
@@ -207,7 +236,7 @@ def replay(case):
 # ---- generation ------------------------------------------------------------------------------------------------------
 @st.composite
 def sessions(draw, max_rounds):
-    sk = draw(st.sampled_from(["S2", "S2", "S2", "S1", "S1", "S0"]))
+    sk = draw(st.sampled_from(["S2", "S2", "S2", "S1", "S1", "S0", "SS", "SS", "SB"]))
     cells, kinds = [], []
     plan = []  # list of atom lists (each one a successful-by-design cell)
     plan.append(["storage (%s)" % S_TYPES[sk]])
@@ -224,7 +253,7 @@ def sessions(draw, max_rounds):
             start = c
         plan.append(["COMMIT"])
         if draw(st.integers(0, 3)) == 0:
-            sk2 = draw(st.sampled_from(["S2", "S1", "S0"]))
+            sk2 = draw(st.sampled_from(["S2", "S1", "S0", "SS", "SB"]))
             if sk2 != sk:
                 sk = sk2
                 plan.append(["storage (%s)" % S_TYPES[sk]])
